@@ -148,6 +148,10 @@ func hExpected(d *hDecl) []string {
 	return rows
 }
 
+// the caller-owned default slice shared by all []string items of one declaration (as a program with a
+// package-level default would do); the library must never write through it
+var hSharedStrings []string
+
 func hDeclare(cmd *cli.Cmd, it hItem, asOpt bool) {
 	n, e, d, h := it.Names, it.Env, it.Desc, it.Hide
 	switch it.Typ {
@@ -181,7 +185,7 @@ func hDeclare(cmd *cli.Cmd, it hItem, asOpt bool) {
 	case 4:
 		var v []string
 		if it.NZ {
-			v = []string{"d1", "d2"}
+			v = hSharedStrings
 		}
 		if asOpt {
 			cmd.Strings(cli.StringsOpt{Name: n, EnvVar: e, Desc: d, HideValue: h, Value: v})
@@ -212,6 +216,7 @@ func hDeclare(cmd *cli.Cmd, it hItem, asOpt bool) {
 }
 
 func hBuildFull(d *hDecl) *cli.Cli {
+	hSharedStrings = []string{"d1", "d2"}
 	fill := func(cmd *cli.Cmd) {
 		cmd.Spec = d.Spec
 		cmd.LongDesc = d.Long
